@@ -171,6 +171,23 @@ func EventType(event any) string {
 	return reflect.TypeOf(event).String()
 }
 
+// eventTypeNameOf returns the name EventType reports for events of Go type t.
+// It consults TypeNamer on a zero value (for pointer types: a pointer to a zero
+// value, so value-receiver and pointer-receiver implementations both work), so that
+// APIs that select stored events by Go type use the name they were persisted under.
+func eventTypeNameOf(t reflect.Type) string {
+	var v any
+	if t.Kind() == reflect.Ptr {
+		v = reflect.New(t.Elem()).Interface()
+	} else {
+		v = reflect.Zero(t).Interface()
+	}
+	if namer, ok := v.(TypeNamer); ok {
+		return namer.EventTypeName()
+	}
+	return t.String()
+}
+
 // Observability is an optional interface for metrics and tracing.
 // Implementations can track event publishing, handler execution, and errors.
 //
